@@ -220,7 +220,12 @@ theorem nf_rByte (b : Bytes) : NF (rByte b) := by
 theorem nf_go : ∀ (b : Bytes) (i x s : Nat), NF (readUvarintGo.go b i x s) := by
   intro b
   induction b with
-  | nil => intro i x s; simp only [readUvarintGo.go]; split <;> exact NF.err _ (by decide)
+  | nil =>
+    intro i x s
+    simp only [readUvarintGo.go]
+    split
+    · exact NF.err _ (by decide)
+    · split <;> exact NF.err _ (by decide)
   | cons c rest ih =>
     intro i x s
     simp only [readUvarintGo.go]
